@@ -409,6 +409,13 @@ class Interp(object):
         self.path = None
         self.n_paths = 0
         self.n_steps = 0
+        if not getattr(repo, '_value_classes_done', False):
+            repo._value_classes_done = True
+            for m in repo.modules.values():
+                for name, node in m.const_nodes.items():
+                    if isinstance(node, ast.Call) and norm(node.func).split('.')[-1] == 'namedtuple' and node.args and isinstance(node.args[0], ast.Constant):
+                        VALUE_CLASSES.add(name)
+                        VALUE_CLASSES.add(str(node.args[0].value))
 
     # ------------------------------------------------------------------ hooks
     NOT_HANDLED = object()
@@ -635,6 +642,23 @@ class Interp(object):
             return ClassRef(n)
         return Top('name:' + n)
 
+    def class_value(self, c, attr):
+        """A class-level binding: one object per class attribute and interpreter (a class-level list or dict is shared by all
+        instances, as at run time).  Literals are folded; other initialisers (a constructor call, a module constant) are
+        evaluated once in the module's scope."""
+        cache = self.__dict__.setdefault('_class_values', {})
+        key = (c.name, attr)
+        if key not in cache:
+            try:
+                cache[key] = ast.literal_eval(c.class_consts[attr])
+            except Exception:
+                cache[key] = self.NOT_HANDLED     # cycles
+                try:
+                    cache[key] = self.ev(c.class_consts[attr], Frame(None, c.module, None, 0))
+                except (Raise, AnalysisError):
+                    cache[key] = self.NOT_HANDLED
+        return cache[key]
+
     def module_value(self, m, n):
         """A module-level binding that is not a foldable literal (it calls a constructor, say): evaluated once per
         interpreter so that every reader sees the same object, as at run time."""
@@ -726,14 +750,10 @@ class Interp(object):
                 # class-level constant
                 for c in self.repo.mro(base.cls):
                     if attr in c.class_consts:
-                        # one object per class attribute and interpreter (a class-level dict is shared by all instances)
-                        cache = self.__dict__.setdefault('_class_values', {})
-                        if (c.name, attr) not in cache:
-                            try:
-                                cache[(c.name, attr)] = ast.literal_eval(c.class_consts[attr])
-                            except Exception:
-                                break
-                        return cache[(c.name, attr)]
+                        v = self.class_value(c, attr)
+                        if v is self.NOT_HANDLED:
+                            break
+                        return v
                 if base.fields.get('__strict__') and not self.class_may_have(base.cls, attr):
                     raise Raise('AttributeError', node, self.where(node, frame), value='%s object has no attribute %s' % (base.cls, attr))
             return Top('attr:' + attr)
@@ -742,6 +762,12 @@ class Interp(object):
                 fi = self.repo.method(base.name, attr, required=False)
                 if fi is not None:
                     return FuncRef(fi)
+                for c in self.repo.mro(base.name):
+                    if attr in c.class_consts:
+                        v = self.class_value(c, attr)
+                        if v is not self.NOT_HANDLED:
+                            return v
+                        break
             if attr == '__name__':
                 return base.name
             return Top('attr:' + attr)
@@ -922,6 +948,11 @@ class Interp(object):
             if isinstance(l, Tok):
                 return None
             if isinstance(r, dict):
+                if isinstance(l, tuple) and _has_abstract(l) and _ident_key(l):
+                    how, _ = dict_find(r, l)
+                    if how == 'unknown':
+                        return None
+                    return (how == 'hit') if isinstance(op, ast.In) else (how != 'hit')
                 if isinstance(l, (Obj, list, dict)):
                     return None
                 v = l in r
@@ -1013,6 +1044,12 @@ class Interp(object):
             if idx in base:
                 return base[idx]
             raise Raise('KeyError', node, self.where(node, frame))
+        if isinstance(base, dict) and isinstance(idx, tuple) and _ident_key(idx):
+            how, v = dict_find(base, idx)
+            if how == 'hit':
+                return v
+            if how == 'miss':
+                raise Raise('KeyError', node, self.where(node, frame))
         if isinstance(base, Tok) and isinstance(idx, int):
             if base.c == 'E':
                 raise Raise('IndexError', node, self.where(node, frame))
@@ -1349,6 +1386,13 @@ class Interp(object):
         if isinstance(base, dict):
             if name == 'get':
                 k = args[0]
+                if isinstance(k, tuple) and _has_abstract(k) and _ident_key(k):
+                    how, v = dict_find(base, k)
+                    if how == 'hit':
+                        return v
+                    if how == 'miss':
+                        return args[1] if len(args) > 1 else None
+                    return Top('item')
                 if isinstance(k, (Top, Sym, Obj, list, dict)):
                     return Top('item')
                 return base.get(k, args[1] if len(args) > 1 else None)
@@ -1608,6 +1652,15 @@ class Interp(object):
         if name in ('sorted', 'reversed'):
             if isinstance(a0, (list, tuple)) and not _has_abstract(a0) and not kwargs:
                 return sorted(a0) if name == 'sorted' else list(reversed(a0))
+            if name == 'sorted' and isinstance(a0, (list, tuple)) and not kwargs and a0 and all(isinstance(x, tuple) and x and not _has_abstract(x[0]) for x in a0):
+                # tuples compare by their first elements when those differ: the rest is never looked at
+                firsts = [x[0] for x in a0]
+                try:
+                    if len(set(firsts)) == len(firsts):
+                        order = sorted(range(len(a0)), key=lambda i: firsts[i])
+                        return [a0[i] for i in order]
+                except TypeError:
+                    pass
             if name == 'reversed' and isinstance(a0, (list, tuple)):
                 return list(reversed(a0))
             if name == 'sorted' and isinstance(a0, (list, tuple)) and isinstance(kwargs.get('key'), FuncRef) and set(kwargs) <= {'key', 'reverse'}:
@@ -1999,11 +2052,69 @@ class Interp(object):
         r = self.on_with(s, frame)
         if r is not self.NOT_HANDLED:
             return r
-        for item in s.items:
-            v = self.ev(item.context_expr, frame)
-            if item.optional_vars is not None:
-                self.assign(item.optional_vars, v if not isinstance(v, (int, str)) else Top('ctx'), frame, s)
-        return self.block(s.body, frame)
+        return self.with_items(list(s.items), s, frame)
+
+    def with_items(self, items, s, frame):
+        if not items:
+            return self.block(s.body, frame)
+        item = items[0]
+        ce = item.context_expr
+        if isinstance(ce, ast.Call):
+            callee = self.ev_callee(ce.func, frame)
+            if isinstance(callee, FuncRef) and any('contextmanager' in d for d in callee.fi.decorators):
+                return self.with_contextmanager(callee, ce, item, items[1:], s, frame)
+        v = self.ev(ce, frame)
+        if item.optional_vars is not None:
+            self.assign(item.optional_vars, v if not isinstance(v, (int, str)) else Top('ctx'), frame, s)
+        return self.with_items(items[1:], s, frame)
+
+    @staticmethod
+    def _split_at_yield(body):
+        """(statements before the yield, the Yield node, statements after it, statements that run on every exit) of a generator
+        written for contextlib.contextmanager: `pre; yield x; post` or `pre; try: pre2; yield x; post2 finally: fin`."""
+        for i, st in enumerate(body):
+            y = None
+            if isinstance(st, ast.Expr) and isinstance(st.value, ast.Yield):
+                y = st.value
+            elif isinstance(st, ast.Assign) and isinstance(st.value, ast.Yield):
+                y = st.value
+            if y is not None:
+                return list(body[:i]), y, list(body[i + 1:]), []
+            if isinstance(st, ast.Try) and not st.handlers and not st.orelse:
+                inner = Interp._split_at_yield(st.body)
+                if inner is not None:
+                    pre, y, post, fin = inner
+                    return list(body[:i]) + pre, y, post, fin + list(st.finalbody) + list(body[i + 1:])
+        return None
+
+    def with_contextmanager(self, callee, ce, item, rest, s, frame):
+        fi = callee.fi
+        parts = self._split_at_yield(fi.node.body)
+        if parts is None:
+            raise Unsupported('context manager %s at %s: the generator is not of the form pre / yield / post' % (fi.qualname, self.where(s, frame)))
+        pre, y, post, fin = parts
+        args = self.ev_elts(ce.args, frame)
+        kwargs = dict((k.arg, self.ev(k.value, frame)) for k in ce.keywords if k.arg is not None)
+        if callee.bound is not None:
+            args = [callee.bound] + args
+        if frame.depth + 1 > self.MAX_DEPTH:
+            raise Unsupported('inlining depth exceeded at %s entering %s' % (self.where(s, frame), fi.qualname))
+        new = Frame(fi, fi.module, frame.self_class, frame.depth + 1)
+        self.bind_params(fi, args, kwargs, new, ce, frame)
+        c = self.block(pre, new)
+        if c is not None:
+            raise Unsupported('context manager %s leaves before its yield' % fi.qualname)
+        v = self.ev(y.value, new) if y.value is not None else None
+        if item.optional_vars is not None:
+            self.assign(item.optional_vars, v, frame, s)
+        try:
+            c = self.with_items(rest, s, frame)
+        except Raise:
+            # the exception is thrown into the generator at the yield: only the finally part runs
+            self.block(fin, new)
+            raise
+        self.block(post + fin, new)
+        return c
 
     def st_For(self, s, frame):
         it = self.ev(s.iter, frame)
@@ -2111,6 +2222,8 @@ class Interp(object):
                 return
             if isinstance(base, dict) and not isinstance(idx, (Top, Sym, Obj, list, dict)) and not (isinstance(idx, tuple) and _has_abstract(idx)):
                 base[idx] = v
+            elif isinstance(base, dict) and isinstance(idx, tuple) and _ident_key(idx):
+                base[idx] = v
             elif isinstance(base, list) and isinstance(idx, int) and -len(base) <= idx < len(base):
                 base[idx] = v
         elif isinstance(t, ast.Starred):
@@ -2205,6 +2318,74 @@ def _as_load(t):
     for x in ast.walk(n):
         ast.copy_location(x, t)
     return n
+
+
+def _ident_key(k):
+    """A dictionary key whose identity the evaluator can follow: constants, symbolic constants (Sym) and objects (by identity),
+    possibly nested in tuples; nothing unknown (Top) inside."""
+    if isinstance(k, tuple):
+        return all(_ident_key(x) for x in k)
+    if isinstance(k, (Top, Tok, Native, list, dict)):
+        return False
+    return True
+
+
+# classes whose instances compare by value (collections.namedtuple definitions found in the repository; filled by Interp.__init__)
+VALUE_CLASSES = set()
+
+
+def _surely_equal(a, b):
+    if a is b:
+        return True
+    if isinstance(a, tuple) and isinstance(b, tuple):
+        return len(a) == len(b) and all(_surely_equal(x, y) for x, y in zip(a, b))
+    if isinstance(a, Obj) and isinstance(b, Obj):
+        return a.cls == b.cls and a.cls in VALUE_CLASSES and set(a.fields) == set(b.fields) and \
+            all(_surely_equal(a.fields[k], b.fields[k]) for k in a.fields)
+    if _has_abstract(a) or _has_abstract(b):
+        return isinstance(a, Sym) and isinstance(b, Sym) and a == b
+    try:
+        return type(a) is type(b) and a == b
+    except Exception:
+        return False
+
+
+def _may_equal(a, b):
+    if isinstance(a, tuple) and isinstance(b, tuple):
+        return len(a) == len(b) and all(_may_equal(x, y) for x, y in zip(a, b))
+    if isinstance(a, Obj) and isinstance(b, Obj) and a is not b:
+        # two distinct objects: certainly unequal when of different classes, or when some field holds different constants
+        # (true both for value-like classes such as namedtuples and for classes compared by identity)
+        if a.cls != b.cls:
+            return False
+        for k in set(a.fields) | set(b.fields):
+            x, y = a.fields.get(k), b.fields.get(k)
+            if not _has_abstract(x) and not _has_abstract(y) and x != y:
+                return False
+        return True
+    if isinstance(a, (Sym, Obj)) or isinstance(b, (Sym, Obj)):
+        return True
+    if isinstance(a, tuple) or isinstance(b, tuple):
+        return False
+    try:
+        return a == b
+    except Exception:
+        return True
+
+
+def dict_find(base, k):
+    """('hit', value) | ('miss', None) | ('unknown', None) for a key that may contain symbolic parts."""
+    try:
+        if k in base:
+            return 'hit', base[k]
+    except TypeError:
+        return 'unknown', None
+    for k2 in base:
+        if _surely_equal(k2, k):
+            return 'hit', base[k2]
+    if any(_may_equal(k2, k) for k2 in base):
+        return 'unknown', None
+    return 'miss', None
 
 
 def _has_abstract(v):
